@@ -56,6 +56,8 @@ pub use proofs::proof_encoding_helpers::{file_supports_proofs, program_supports_
 /// Read-only proof reconstruction API.
 pub mod proof {
     pub use crate::proofs::proof_format::{Justification, Proof, ProofId, ProofStore, Proposition};
+    #[cfg(feature = "verif-hooks")]
+    pub use crate::proofs::verif::ProgramAlteration;
 }
 use scheduler::{SchedulerId, SchedulerRecord};
 pub use serialize::{SerializeConfig, SerializeOutput, SerializedNode};
